@@ -3,10 +3,11 @@ from ..core import Script, hx
 
 ID = "C18"
 SUITES = ["b62"]
-LEAN_MODULES = ["VpnCloud.Proofs.C18"]
+LEAN_MODULES = ["VpnCloud.Proofs.C18", "VpnCloud.Proofs.C18More"]
 THEOREMS = ["VpnCloud.Proofs.C18." + n for n in (
     "toBase62_total", "toBase62_value", "fromBase62_value", "fromBase62_error", "from_to",
     "generated_key_accepted", "generated_pair_usable")]
+THEOREMS = THEOREMS + ["VpnCloud.Proofs.C18More." + n for n in ('same_password_same_keys', 'different_password_different_keys', 'different_password_no_trust', 'private_yields_public', 'generated_private_yields_public', 'printed_pair_consistent', 'random_pair_consistent', 'mismatched_pair_rejected')]
 BATCH = 100
 SEARCH_BUDGET_S = 300
 RULE = ("suite b62: text codec on all byte strings of length <= 2 and random strings up to 64 bytes (b62enc), decoding of random texts "
